@@ -12,6 +12,15 @@ def main(tier, seed, t0, only=None):
     for n in ([0, 1, 3, 8, 17] if q else [0, 1, 2, 3, 8, 15, 16, 17, 31, 32, 33, 40]):
         J.append(Job('C06.strings.n%d' % n, 'harness/c_ser.cpp', '@h_ser', [1, n], nproc=4 if n < 20 else 16, timeout=3400,
                      bound='object whose key and value are the same %d symbolic bytes (at most one needing an escape, at a symbolic position): serialise, reference recogniser, parse back, bytes equal, re-serialise identical' % n))
+    capmax = 40 if q else 130
+    J.append(Job('C06.smallcap', 'harness/c_ser.cpp', '@h_ser', [2, capmax, 0], nproc=16, timeout=1500,
+                 bound='WriteBuffer constructed with every initial capacity 0..%d x 18 document shapes (scalar roots, empty containers, empty container as last child, nesting, strings, escapes, longest integers): exact compact text, every store inside the buffer object' % capmax))
+    J.append(Job('C06.smallcap.reuse', 'harness/c_ser.cpp', '@h_ser', [2, 12 if q else 40, 1], nproc=16, timeout=3000,
+                 bound='the same with the buffer cleared and reused for a second document (every ordered pair of the 18 shapes), initial capacity 0..%d' % (12 if q else 40)))
+    amax = 30 if q else 90
+    for cap0 in ([0] if q else [0, 1, 200]):
+        J.append(Job('C06.outgrow.cap%d' % cap0, 'harness/c_ser.cpp', '@h_ser', [3, amax, cap0], nproc=16, timeout=3000,
+                     bound='"[[" + a x "[]," + b x "null," + T + "]]", a = 0..%d, b = 0..4, T over 12 element kinds (longest integers and double, literals, empty containers, strings, nested): every element kind at every distance from the end of the reserved (18*Size+64 bytes) and once/twice doubled write buffer; exact text, every store inside the buffer object' % amax))
     if only: J = [j for j in J if re.search(only, j.name)]
     res = runner.run_jobs(J)
     return runner.finish('C06', tier, seed, res, 'model_checking',
